@@ -26,4 +26,105 @@ theorem handleError_server (c : Conf) (hs : c.isServer = true) (hu : c.upgradeCo
 theorem refuse_refusedWith (c : Conf) (f : Flags) (code : Nat) : (refuse c f code).refusedWith c code := by
   simp [refuse, HandleResult.refusedWith]
 
+
+/-- outcome of a fragment: processed by a fragment callback, or refused with 1002 / 1003 -/
+def FragOutcome (c : Conf) (p : Bytes) (r : HandleResult) : Prop :=
+  (∃ last, r.actions.head? = some (Action.textFrame p last)) ∨
+  (∃ last, r.actions.head? = some (Action.binaryFrame p last)) ∨
+  r.refusedWith c closeProtocolError ∨
+  r.refusedWith c closeUnsupported
+
+theorem fragOutcome_refuse1002 (c : Conf) (p : Bytes) (f : Flags) : FragOutcome c p (refuse c f closeProtocolError) :=
+  Or.inr (Or.inr (Or.inl (refuse_refusedWith c f _)))
+
+theorem fragOutcome_refuse1003 (c : Conf) (p : Bytes) (f : Flags) : FragOutcome c p (refuse c f closeUnsupported) :=
+  Or.inr (Or.inr (Or.inr (refuse_refusedWith c f _)))
+
+theorem dispatch_continuation (c : Conf) (f : Flags) (p : Bytes) (h0 : f.opcode = opContinuation) :
+    FragOutcome c p (dispatchOpcode c f p) := by
+  unfold dispatchOpcode
+  simp only [h0, if_true]
+  by_cases hb : f.fragOpcode = opBinary
+  · simp only [hb, if_true]
+    cases c.cbs.binaryFrame with
+    | none => exact fragOutcome_refuse1003 c p f
+    | some cb => exact Or.inr (Or.inl ⟨f.fin, by simp⟩)
+  · simp only [hb, if_false]
+    by_cases ht : f.fragOpcode = opText
+    · simp only [ht, if_true]
+      cases c.cbs.textFrame with
+      | none => exact fragOutcome_refuse1003 c p f
+      | some cb =>
+        simp only
+        cases cb p f.fin <;> exact Or.inl ⟨f.fin, by simp⟩
+    · simp only [ht, if_false]
+      exact fragOutcome_refuse1002 c p f
+
+/-- with no fragment handlers installed, a continuation is always refused -/
+theorem dispatch_continuation_nohandler (c : Conf) (f : Flags) (p : Bytes) (h0 : f.opcode = opContinuation)
+    (h1 : c.cbs.textFrame = none) (h2 : c.cbs.binaryFrame = none) :
+    (dispatchOpcode c f p).refusedWith c closeProtocolError ∨ (dispatchOpcode c f p).refusedWith c closeUnsupported := by
+  unfold dispatchOpcode
+  simp only [h0, if_true, h1, h2]
+  by_cases hb : f.fragOpcode = opBinary
+  · simp only [hb, if_true]; exact Or.inr (refuse_refusedWith c f _)
+  · simp only [hb, if_false]
+    by_cases ht : f.fragOpcode = opText
+    · simp only [ht, if_true]; exact Or.inr (refuse_refusedWith c f _)
+    · simp only [ht, if_false]; exact Or.inl (refuse_refusedWith c f _)
+
+/-- the part of `ws_handle_frame` before the `switch`, for a fragment: either a protocol error, or the
+    `switch` is entered with opcode 0 -/
+theorem handleFrame_fragment (c : Conf) (f : Flags)
+    (hfrag : (f.fin = false ∧ f.opcode < opClose) ∨ f.opcode = opContinuation) (p : Bytes) :
+    wsHandleFrame c f p = refuse c f closeProtocolError ∨
+    (∃ f', wsHandleFrame c f p = refuse c f' closeProtocolError) ∨
+    (∃ f', f'.opcode = opContinuation ∧ wsHandleFrame c f p = dispatchOpcode c f' p) := by
+  unfold wsHandleFrame
+  cases rsvCheck c f with
+  | none => exact Or.inl rfl
+  | some comp =>
+    simp only
+    have hnc : (!f.fin && decide (f.opcode ≥ opClose)) = false := by
+      rcases hfrag with ⟨_, ho⟩ | ho
+      · simp only [opClose] at ho ⊢; simp; omega
+      · simp [ho, opClose, opContinuation]
+    simp only [hnc, Bool.false_eq_true, if_false]
+    unfold fragStep
+    by_cases hfin : f.fin = true
+    · -- FIN = 1: then opcode = 0
+      have ho : f.opcode = opContinuation := by
+        rcases hfrag with ⟨hf, _⟩ | ho
+        · rw [hf] at hfin; cases hfin
+        · exact ho
+      simp only [hfin, Bool.not_true, Bool.false_eq_true, if_false]
+      have hz : (f.isFragmented && (decide (f.opcode < opClose) && decide (f.opcode > 0))) = false := by
+        simp [ho, opContinuation]
+      simp only [hz, Bool.false_eq_true, if_false]
+      exact Or.inr (Or.inr ⟨f, ho, rfl⟩)
+    · have hfin' : f.fin = false := by cases h : f.fin <;> simp_all
+      simp only [hfin', Bool.not_false, if_true]
+      by_cases ho : f.opcode = 0
+      · simp only [ho, ne_eq, not_true_eq_false, if_false]
+        by_cases hr : f.rsv = 0
+        · simp only [hr, not_true_eq_false, if_false]
+          cases hif : f.isFragmented with
+          | false => simp
+          | true =>
+            simp only [Bool.not_true, Bool.false_eq_true, if_false]
+            have hz : (f.isFragmented && (decide (f.opcode < opClose) && decide (f.opcode > 0))) = false := by
+              simp [ho]
+            simp only [hz, Bool.false_eq_true, if_false]
+            exact Or.inr (Or.inr ⟨f, ho, rfl⟩)
+        · simp [hr]
+      · simp only [ne_eq, ho, not_false_eq_true, if_true]
+        cases hif : f.isFragmented with
+        | true => simp
+        | false =>
+          simp only [Bool.false_eq_true, if_false]
+          refine Or.inr (Or.inr ⟨{ f with isFragmented := true, isFragCompressed := f.isFragCompressed || comp,
+                                          fragOpcode := f.opcode, opcode := opContinuation }, rfl, ?_⟩)
+          simp [opContinuation, hfin']
+
+
 end Cjet.Ws
